@@ -55,6 +55,21 @@ def random_history(rnd, nk, nf, steps, families, fairs=('none', 'none', 'all', '
         f = gen.rand_ctl(rnd, 2) if lg == 'CTL' else ('A', gen.rand_path(rnd, 2, leaves=M0)) if lg == 'LTL' else gen.rand_ctls_state(rnd, 2, leaves=M0)
         if gen.temporal_count(f) <= 3 and gen.size(f) <= 10:
             fs.append({'logic': lg, 'f': f})
+    # twins: two different formulas that PRINT identically (an atom named like a subformula); the structure carries that
+    # atom as an ordinary label, so the two have different answers
+    if rnd.random() < 0.6:
+        import pymc, synfam
+        sub = rnd.choice([('or', P, Q), ('and', P, Q), ('not', P), ('imp', P, Q)])
+        name = str(synfam.build(sub, pymc.CTL))
+        wrap = rnd.choice([lambda z: ('E', ('F', z)), lambda z: ('A', ('G', z)), lambda z: ('and', z, Q), lambda z: ('A', ('U', Q, z)), lambda z: ('imp', z, P)])
+        lg = rnd.choice(['CTL', 'CTLS'])
+        tw = [{'logic': lg, 'f': wrap(sub)}, {'logic': lg, 'f': wrap(('ap', name))}]
+        rnd.shuffle(tw)
+        fs[0:2] = tw
+        for K in ks:
+            for i in range(K['n']):
+                if rnd.random() < 0.4:
+                    K['L'][i] = sorted(set(K['L'][i]) | {name})
     st = []
     live = []
     nxt = 1
@@ -93,20 +108,20 @@ def run(ctx, c19=False):
     hists = []
     sim = graphfam.simulate(ctx, 'MC_Library.tla', 'Library_sim.cfg', 300 if q else 6000, 14, ctx.seed + 11)
     for steps in sim:
-        pres = [{'naming': rnd.choice(['int', 'str', 'tuple']), 'shuf': rnd.randrange(1 << 30)} for _ in SIM_KS]
+        pres = [{'naming': rnd.choice(['int', 'str', 'tuple', 'obj']), 'shuf': rnd.randrange(1 << 30)} for _ in SIM_KS]
         hists.append({'ks': SIM_KS, 'fs': SIM_FS, 'pres': pres, 'steps': steps, 'family': 'tlc-simulated history', 'seed': rnd.randrange(1 << 30)})
     for _ in range(250 if q else 5000):
         h = random_history(rnd, 3, 5, 30 if not c19 else 16, None)
         if c19:
             # constants and bare atoms as whole queries (shortest code paths return internal objects most easily)
             h['fs'][0] = {'logic': rnd.choice(['CTL', 'CTLS']), 'f': rnd.choice([TR, FA, ('not', FA), P, ('not', P), ('or', P, TR)])}
-            h['pres'] = [{'naming': rnd.choice(['str', 'tuple', 'mixed', 'neg']), 'shuf': rnd.randrange(1 << 30),
+            h['pres'] = [{'naming': rnd.choice(['str', 'tuple', 'mixed', 'neg', 'obj', 'objmix']), 'shuf': rnd.randrange(1 << 30),
                           'junk': rnd.random() < 0.7, 'odd': rnd.random() < 0.4} for _ in h['ks']]
             for fl in h['fs']:
                 if rnd.random() < 0.3:       # atoms that do not occur in K at all
                     fl['f'] = libfam.rename_atoms(libfam.T(fl['f']), {'q': 'absent_atom'})
         else:
-            h['pres'] = [{'naming': rnd.choice(['int', 'str', 'tuple']), 'shuf': rnd.randrange(1 << 30)} for _ in h['ks']]
+            h['pres'] = [{'naming': rnd.choice(['int', 'str', 'tuple', 'obj']), 'shuf': rnd.randrange(1 << 30)} for _ in h['ks']]
         h['family'] = 'random history'
         h['seed'] = rnd.randrange(1 << 30)
         hists.append(h)
